@@ -65,6 +65,9 @@ EXPECTED_INCONCLUSIVE = {
     'C02-r9-2': 'reducer patterns given as tuples of alternatives and '
                 'matched by `in`: the reducer table is not read (C01, C02, '
                 'C15 decline)',
+    'C17-r9-2': 'rendered sections memoised in a module-level table keyed '
+                'by id(default): what the table hands back is not read '
+                '(reported until round 10 only by non-recognition)',
     'C08-r6-2': 'the gate hands its error back instead of raising it '
                 '(C07.SURFACE / C14.SURFACE report the raise outside the '
                 'gate; C08 declines)',
